@@ -1,3 +1,31 @@
+/-
+  C18 (generated-code level) — the translated `Dec.Gen.Code.bid128_total_order` and `bid128_total_order_mag`
+  (bid128_noncomp.rs, as machine-translated in `DecGen/Code.lean`) compute the IEEE 754-2008 §5.10 predicates
+  `Dec.totalLe` / `Dec.totalLeMag` of the decoded operands, for ALL pairs of 128-bit patterns (non-canonical
+  encodings included), and never panic:
+
+      total_order_spec      bid128_total_order x y     = .ok (totalLe    (decode (bitsOf x)) (decode (bitsOf y)))
+      total_order_mag_spec  bid128_total_order_mag x y = .ok (totalLeMag (decode (bitsOf x)) (decode (bitsOf y)))
+
+  Route.  §0–1: the routine is rewritten (`total_order_nan`, `total_order_nonnan`: by `unfold`/`simp`/`rfl`, so a change of
+  the translated source breaks them) into a decision tree over named bit-field tests, ending — for finite non-zero
+  operands of equal sign — in `magTail`, a verbatim copy of the code's magnitude comparison.  §2: `totalKeyFinLe` in
+  natural numbers (`tk_eq'`).  §3: `magTail_spec`, all exponent gaps: equal exponents and gaps decided by the first two
+  tests, gaps > 33 (no multiplication), 1..19 (`mul_64x128_to_192` × `BID_TEN2K64`), 20..33 (`mul_128x128_to_256` ×
+  `BID_TEN2K128`); the exact-product and table facts about the TRANSLATED helpers are taken from
+  `DecProofs/Properties/C03GenCompare.lean` (`scale192`, `scale256`, `eq192`, `eq256`, …).  §4: every bit-field test and
+  field against `decode` (`view_nan`, `view_inf`, `view_fin`).  §5–6: the case analysis.  §7: `bid128_total_order_mag`
+  is `bid128_total_order` on the operands with bit 127 cleared (`mag_eq`), and clearing bit 127 is `setSign false`
+  (`decode_abs`).
+
+  Findings: none — the code agrees with `totalLe`/`totalLeMag` everywhere.  What the code does with the odd encodings,
+  all as `decode` reads them: NaN payload = low 110 bits, a field ≥ 10^33 compared as 0, reserved bits 120..110 ignored;
+  trailing bits of infinities ignored; finite non-canonical encodings (coefficient field ≥ 10^34, or the
+  large-coefficient form, whose exponent the code then takes from bits 124..111) are zeros ordered by sign and exponent.
+  One thing that is only right because of the order of the tests: for equal values the code answers
+  `(exp_x ≤ exp_y) != sign` — wrong for two identical operands of negative sign — but bitwise-equal operands are answered
+  `true` before (hypothesis `hne` of `magTail_spec`).
+-/
 import DecProofs.Properties.C06GenFromInt
 import DecProofs.Properties.C03GenCompare
 import DecProofs.Properties.C18
@@ -68,6 +96,8 @@ def nanTail (x y : U128) (cmp : U128 → U128 → Bool) (other : Bool) : Except 
 def ge128b (a b : U128) : Bool := decide (a.w1 > b.w1) || a.w1 == b.w1 && decide (a.w0 ≥ b.w0)
 def le128b (a b : U128) : Bool := decide (a.w1 < b.w1) || a.w1 == b.w1 && decide (a.w0 ≤ b.w0)
 
+set_option linter.unusedSimpArgs false in
+/-- the translated routine when `x` passes the NaN test: its decision tree, verbatim -/
 theorem total_order_nan (x y : U128) (hx : nanB x = true) : bid128_total_order x y =
       if sgnB x then
         if !nanB y || !sgnB y then .ok true else nanTail x y ge128b (snanB y)
@@ -83,6 +113,8 @@ theorem total_order_nan (x y : U128) (hx : nanB x = true) : bid128_total_order x
     simp only [hpx, hpy, if_true, if_false, Bool.false_eq_true, sgnB, nanB, snanB, ge128b, le128b, bne, pyldU] <;>
     rfl
 
+set_option linter.unusedSimpArgs false in
+/-- the translated routine when `x` fails the NaN test: its decision tree, verbatim, ending in `magTail` -/
 theorem total_order_nonnan (x y : U128) (hx : nanB x = false) : bid128_total_order x y =
     if nanB y then .ok (!sgnB y)
     else if x.w1 == y.w1 && x.w0 == y.w0 then .ok true
@@ -288,7 +320,7 @@ theorem magTail_spec (nx : Bool) (ex ey : Int32) (sx sy : U128) (Ex Ey : Nat)
     Dec.C03GenCompare.int32_sub_toInt ex ey Ex Ey hex hey hEx hEy
   have d2 : (ex - ey).toInt = (Ex : Int) - Ey := Dec.C03GenCompare.int32_sub_toInt ey ex Ey Ex hey hex hEy hEx
   have d1' : (ey - ex).toInt = (Ey : Int) - Ex := Dec.C03GenCompare.int32_sub_toInt ex ey Ex Ey hex hey hEx hEy
-  simp only [i32_le, i32_lt, i32_ge, i32_gt, hex, hey, Int.ofNat_le, Int.ofNat_lt, e1, e2, d2, d1',
+  simp only [i32_le, i32_lt, hex, hey, Int.ofNat_le, Int.ofNat_lt, e1, e2, d2, d1',
     show (33 : Int32).toInt = 33 from rfl, show (19 : Int32).toInt = 19 from rfl]
   generalize hcx : val128 sx = cx at *
   generalize hcy : val128 sy = cy at *
@@ -649,5 +681,202 @@ theorem total_order_spec (x y : U128) :
     | nan s' g' p' => rw [← hdx]; exact spec_ynan x y (by rw [hdx]; rfl) hdy
     | inf s' => rw [← hdx, ← hdy]; exact spec_inf x y (by rw [hdx]; rfl) (by rw [hdy]; rfl) (Or.inr (by rw [hdy]; rfl))
     | fin s' c' e' => exact spec_fin x y hdx hdy
+
+
+/-! ## 7. `bid128_total_order_mag` -/
+
+/-- the operand with its sign bit cleared, as `bid128_total_order_mag` does first -/
+def absU (x : U128) : U128 := ⟨x.w0, x.w1 &&& 0x7fffffffffffffff⟩
+
+set_option linter.unusedSimpArgs false in
+/-- `bid128_total_order_mag` when `|x|` passes the NaN test -/
+theorem mag_nan (x y : U128) (hx : nanB (absU x) = true) : bid128_total_order_mag x y =
+      if !nanB (absU y) then .ok false else nanTail (absU x) (absU y) le128b (snanB (absU x)) := by
+  unfold bid128_total_order_mag
+  unfold nanB absU at hx
+  simp only [] at hx
+  simp only [pure, Except.pure, bne, hx, if_true]
+  by_cases hpx : bigP (x.w1 &&& 9223372036854775807 &&& 70368744177663) x.w0 = true <;>
+    by_cases hpy : bigP (y.w1 &&& 9223372036854775807 &&& 70368744177663) y.w0 = true <;>
+    simp only [nanTail, pyldC, absU, hpx, hpy, if_true, if_false, Bool.false_eq_true] <;>
+    simp only [bigP] at hpx hpy <;>
+    simp only [hpx, hpy, if_true, if_false, Bool.false_eq_true, sgnB, nanB, snanB, ge128b, le128b, bne, pyldU] <;>
+    rfl
+
+
+/-- the magnitude comparison of `bid128_total_order_mag` for finite non-zero operands (its equal-value branches return
+constants where `bid128_total_order` recomputes `exp_x ≤ exp_y`) -/
+def magTailM (ex ey : Int32) (sx sy : U128) : Except String Bool :=
+  if (decide (sx.w1 > sy.w1) || sx.w1 == sy.w1 && decide (sx.w0 > sy.w0)) && decide (ex ≥ ey) then .ok false
+  else if (decide (sx.w1 < sy.w1) || sx.w1 == sy.w1 && decide (sx.w0 < sy.w0)) && decide (ex ≤ ey) then .ok true
+  else if decide (ex > ey) then
+    if decide (ex - ey > 33) then .ok false
+    else if decide (ex - ey > 19) then do
+      let t ← tbl128 Dec.Gen.BID_TEN2K128 (UInt64.ofInt (toI (ex - ey - 20)))
+      let v ← mul_128x128_to_256 sx t
+      if v.w3 == 0 && v.w2 == 0 && v.w1 == sy.w1 && v.w0 == sy.w0 then .ok false
+      else .ok (v.w3 == 0 && v.w2 == 0 && (decide (v.w1 < sy.w1) || v.w1 == sy.w1 && decide (v.w0 < sy.w0)))
+    else do
+      let t ← tbl64 Dec.Gen.BID_TEN2K64 (UInt64.ofInt (toI (ex - ey)))
+      let v ← mul_64x128_to_192 t sx
+      if v.w2 == 0 && v.w1 == sy.w1 && v.w0 == sy.w0 then .ok false
+      else .ok (v.w2 == 0 && (decide (v.w1 < sy.w1) || v.w1 == sy.w1 && decide (v.w0 < sy.w0)))
+  else if decide (ey - ex > 33) then .ok true
+  else if decide (ey - ex > 19) then do
+    let t ← tbl128 Dec.Gen.BID_TEN2K128 (UInt64.ofInt (toI (ey - ex - 20)))
+    let v ← mul_128x128_to_256 sy t
+    if v.w3 == 0 && v.w2 == 0 && v.w1 == sx.w1 && v.w0 == sx.w0 then .ok true
+    else .ok (v.w3 != 0 || v.w2 != 0 || decide (v.w1 > sx.w1) || v.w1 == sx.w1 && decide (v.w0 > sx.w0))
+  else do
+    let t ← tbl64 Dec.Gen.BID_TEN2K64 (UInt64.ofInt (toI (ey - ex)))
+    let v ← mul_64x128_to_192 t sy
+    if v.w2 == 0 && v.w1 == sx.w1 && v.w0 == sx.w0 then .ok true
+    else .ok (v.w2 != 0 || decide (v.w1 > sx.w1) || v.w1 == sx.w1 && decide (v.w0 > sx.w0))
+
+theorem magTailM_eq (ex ey : Int32) (sx sy : U128) : magTailM ex ey sx sy = magTail false ex ey sx sy := by
+  unfold magTailM magTail
+  by_cases h : ex > ey
+  · have hle : decide (ex ≤ ey) = false := by
+      rw [decide_eq_false_iff_not, Int32.le_iff_toInt_le]
+      rw [gt_iff_lt, Int32.lt_iff_toInt_lt] at h; omega
+    simp only [h, hle, decide_true, if_true, Bool.bne_false, Bool.not_false, Bool.and_false, Bool.false_eq_true, if_false]
+  · have hle : decide (ex ≤ ey) = true := by
+      rw [decide_eq_true_iff, Int32.le_iff_toInt_le]
+      rw [gt_iff_lt, Int32.lt_iff_toInt_lt] at h; omega
+    simp only [h, hle, decide_false, Bool.false_eq_true, if_false, Bool.bne_false, Bool.not_false, Bool.and_true]
+
+set_option linter.unusedSimpArgs false in
+/-- `bid128_total_order_mag` when `|x|` fails the NaN test, ending in `magTailM` -/
+theorem mag_nonnan (x y : U128) (hx : nanB (absU x) = false) : bid128_total_order_mag x y =
+    if nanB (absU y) then .ok true
+    else if (absU x).w1 == (absU y).w1 && (absU x).w0 == (absU y).w0 then .ok true
+    else if infB (absU x) then .ok (infB (absU y))
+    else if infB (absU y) then .ok true
+    else if zeroB (absU x) then
+      (if zeroB (absU y) then
+         (if expZ (absU x) == expZ (absU y) then .ok true else .ok (decide (expZ (absU x) ≤ expZ (absU y))))
+       else .ok true)
+    else if zeroB (absU y) then .ok false
+    else magTailM (expF (absU x)) (expF (absU y)) (sigF (absU x)) (sigF (absU y)) := by
+  unfold bid128_total_order_mag
+  unfold nanB absU at hx
+  simp only [] at hx
+  simp only [pure, Except.pure, bne, hx, if_false, Bool.false_eq_true]
+  by_cases hzx : (bigC (x.w1 &&& 9223372036854775807 &&& 562949953421311) x.w0 &&
+        !(x.w1 &&& 9223372036854775807 &&& 6917529027641081856 == 6917529027641081856) ||
+      x.w1 &&& 9223372036854775807 &&& 6917529027641081856 == 6917529027641081856 ||
+      x.w1 &&& 9223372036854775807 &&& 562949953421311 == 0 && x.w0 == 0) = true <;>
+  by_cases hzy : (bigC (y.w1 &&& 9223372036854775807 &&& 562949953421311) y.w0 &&
+        !(y.w1 &&& 9223372036854775807 &&& 6917529027641081856 == 6917529027641081856) ||
+      y.w1 &&& 9223372036854775807 &&& 6917529027641081856 == 6917529027641081856 ||
+      y.w1 &&& 9223372036854775807 &&& 562949953421311 == 0 && y.w0 == 0) = true <;>
+  by_cases hsx : (x.w1 &&& 9223372036854775807 &&& 6917529027641081856 == 6917529027641081856) = true <;>
+  by_cases hsy : (y.w1 &&& 9223372036854775807 &&& 6917529027641081856 == 6917529027641081856) = true <;>
+    simp only [zeroB, steerB, expZ, absU, hzx, hzy, if_true, if_false, Bool.false_eq_true] <;>
+    simp only [bigC] at hzx hzy <;>
+    simp only [hzx, hzy, if_true, if_false, Bool.false_eq_true, Bool.and_true, Bool.true_and, Bool.and_false,
+      Bool.false_and] <;>
+    simp only [hsx, hsy, if_true, if_false, Bool.false_eq_true, Bool.and_true, Bool.true_and, Bool.and_false,
+      Bool.false_and, sgnB, nanB, infB, bne, expF, expL, sigF, magTailM] <;>
+    rfl
+
+
+theorem bitsOf_abs (x : U128) : bitsOf (absU x) = bitsOf x % 2^127 := by
+  have := x.w0.toNat_lt
+  have := x.w1.toNat_lt
+  unfold bitsOf absU
+  simp only []
+  rw [and_low _ _ 63 (by rfl)]
+  omega
+
+theorem sgnB_abs (x : U128) : sgnB (absU x) = false := by
+  rw [sgnB_eq, decode_neg, bitsOf_abs, beq_eq_false_iff_ne]
+  omega
+
+/-- clearing bit 127 of a pattern clears the sign of the decoded datum and changes nothing else -/
+theorem decode_mod (b : Nat) (_hb : b < 2^128) : decode (b % 2^127) = (decode b).setSign false := by
+  have f1 : b % 2^127 / 2^123 % 16 = b / 2^123 % 16 := by omega
+  have f2 : b % 2^127 / 2^122 % 2 = b / 2^122 % 2 := by omega
+  have f3 : b % 2^127 / 2^127 % 2 = 0 := by omega
+  have f4 : b % 2^127 / 2^121 % 2 = b / 2^121 % 2 := by omega
+  have f5 : b % 2^127 % 2^110 = b % 2^110 := by omega
+  have f6 : b % 2^127 / 2^111 % 2^14 = b / 2^111 % 2^14 := by omega
+  have f7 : b % 2^127 / 2^113 % 2^14 = b / 2^113 % 2^14 := by omega
+  have f8 : b % 2^127 % 2^113 = b % 2^113 := by omega
+  rcases decode_cases b with ⟨h1, h2⟩ | ⟨h1, h2⟩ | ⟨h1, h2⟩ | ⟨h1, h2⟩
+  · rw [decode_inf b h1 h2, decode_inf _ (by rw [f1]; exact h1) (by rw [f2]; exact h2), f3]; rfl
+  · rw [decode_nan b h1 h2, decode_nan _ (by rw [f1]; exact h1) (by rw [f2]; exact h2), f3, f4, f5]; rfl
+  · rw [decode_large b h1 h2, decode_large _ (by rw [f1]; exact h1) (by rw [f1]; exact h2), f3, f6]; rfl
+  · rw [decode_small b h1 h2, decode_small _ (by rw [f1]; exact h1) (by rw [f1]; exact h2), f3, f7, f8]; rfl
+
+theorem decode_abs (x : U128) : decode (bitsOf (absU x)) = (decode (bitsOf x)).setSign false := by
+  rw [bitsOf_abs, decode_mod _ (bitsOf_lt x)]
+
+/-- `bid128_total_order_mag` is `bid128_total_order` on the operands with their sign bits cleared -/
+theorem mag_eq (x y : U128) : bid128_total_order_mag x y = bid128_total_order (absU x) (absU y) := by
+  by_cases hn : nanB (absU x) = true
+  · rw [mag_nan x y hn, total_order_nan _ _ hn, sgnB_abs, sgnB_abs]
+    simp only [Bool.false_eq_true, if_false, Bool.or_false]
+  · have hn' : nanB (absU x) = false := by simpa using hn
+    rw [mag_nonnan x y hn', total_order_nonnan _ _ hn', sgnB_abs, sgnB_abs, magTailM_eq]
+    simp only [Bool.not_false, bne_self_eq_false, Bool.false_eq_true, if_false, Bool.bne_false]
+
+/-- **`bid128_total_order_mag`**: for ALL pairs of 128-bit patterns the routine returns (never panics) `totalOrderMag`,
+the total order of the magnitudes of the decoded operands, `Dec.totalLeMag`. -/
+theorem total_order_mag_spec (x y : U128) :
+    bid128_total_order_mag x y = .ok (totalLeMag (decode (bitsOf x)) (decode (bitsOf y))) := by
+  rw [mag_eq, total_order_spec, decode_abs, decode_abs, ← C18.mag_is_abs]
+
+
+/-! ## 8. Examples (the translated routines evaluated by the kernel, and the theorems instantiated) -/
+
+-- −qNaN(7) ≤ −qNaN(5) (larger payload first among negatives), −qNaN ≤ −sNaN, +sNaN ≤ +qNaN
+example : bid128_total_order ⟨7, 0xfc00000000000000⟩ ⟨5, 0xfc00000000000000⟩ = .ok true := by decide +kernel
+example : bid128_total_order ⟨5, 0xfc00000000000000⟩ ⟨7, 0xfc00000000000000⟩ = .ok false := by decide +kernel
+example : bid128_total_order ⟨5, 0xfc00000000000000⟩ ⟨5, 0xfe00000000000000⟩ = .ok true := by decide +kernel
+example : bid128_total_order ⟨9, 0x7e00000000000000⟩ ⟨0, 0x7c00000000000000⟩ = .ok true := by decide +kernel
+-- a payload field ≥ 10^33 reads as 0, reserved bits 120..110 are ignored: qNaN(field 2^110−1) ≤ qNaN(1)
+example : bid128_total_order ⟨0xffffffffffffffff, 0x7c003fffffffffff⟩ ⟨1, 0x7dffc00000000000⟩ = .ok true := by
+  decide +kernel
+example : decode (bitsOf ⟨0xffffffffffffffff, 0x7c003fffffffffff⟩) = .nan false false 0 ∧
+    decode (bitsOf ⟨1, 0x7dffc00000000000⟩) = .nan false false 1 := by decide +kernel
+-- zeros: −0E+5 ≤ −0E−3 ≤ +0E−3 ≤ +0E+5; a non-canonical coefficient is a zero: +(10^34)E0 ≤ +0E+1
+example : bid128_total_order ⟨0, 0xb04a000000000000⟩ ⟨0, 0xb03a000000000000⟩ = .ok true := by decide +kernel
+example : bid128_total_order ⟨0, 0x303a000000000000⟩ ⟨0, 0xb03a000000000000⟩ = .ok false := by decide +kernel
+example : bid128_total_order ⟨0x378d8e6400000000, 0x3041ed09bead87c0⟩ ⟨0, 0x3042000000000000⟩ = .ok true := by
+  decide +kernel
+-- the large-coefficient form (a zero whose exponent sits in bits 124..111) against an ordinary zero
+example : bid128_total_order ⟨5, 0x6000800000000000⟩ ⟨0, 0x0002000000000000⟩ = .ok true := by decide +kernel
+-- same value, different exponents: 10E0 ≤ 1E+1 but not conversely; reversed for negatives (gap 1: 64×128 product)
+example : bid128_total_order ⟨10, 0x3040000000000000⟩ ⟨1, 0x3042000000000000⟩ = .ok true := by decide +kernel
+example : bid128_total_order ⟨1, 0x3042000000000000⟩ ⟨10, 0x3040000000000000⟩ = .ok false := by decide +kernel
+example : bid128_total_order ⟨1, 0xb042000000000000⟩ ⟨10, 0xb040000000000000⟩ = .ok true := by decide +kernel
+-- gap 25 (128×128 product): 1E+25 against 10^25 + 1
+example : bid128_total_order ⟨1, 0x3072000000000000⟩ ⟨0x161401484a000001, 0x3040000000084595⟩ = .ok true := by
+  decide +kernel
+example : bid128_total_order ⟨0x161401484a000001, 0x3040000000084595⟩ ⟨1, 0x3072000000000000⟩ = .ok false := by
+  decide +kernel
+-- … and against 10^25 itself (same value: the smaller exponent first)
+example : bid128_total_order ⟨0x161401484a000000, 0x3040000000084595⟩ ⟨1, 0x3072000000000000⟩ = .ok true := by
+  decide +kernel
+example : bid128_total_order ⟨1, 0x3072000000000000⟩ ⟨0x161401484a000000, 0x3040000000084595⟩ = .ok false := by
+  decide +kernel
+-- gap 40 (> 33, no multiplication)
+example : bid128_total_order ⟨1, 0x3090000000000000⟩ ⟨0xffffffffffffffff, 0x3040ffffffffffff⟩ = .ok false := by
+  decide +kernel
+-- magnitudes: |−3| ≤ |+3| and |+3| ≤ |−3|; |−Inf| is not ≤ |5|; |sNaN| ≤ |−qNaN|
+example : bid128_total_order_mag ⟨3, 0xb040000000000000⟩ ⟨3, 0x3040000000000000⟩ = .ok true := by decide +kernel
+example : bid128_total_order_mag ⟨3, 0x3040000000000000⟩ ⟨3, 0xb040000000000000⟩ = .ok true := by decide +kernel
+example : bid128_total_order_mag ⟨0, 0xf800000000000000⟩ ⟨5, 0x3040000000000000⟩ = .ok false := by decide +kernel
+example : bid128_total_order_mag ⟨0, 0x7e00000000000000⟩ ⟨0, 0xfc00000000000000⟩ = .ok true := by decide +kernel
+-- the theorems on concrete inputs
+example : bid128_total_order ⟨10, 0x3040000000000000⟩ ⟨1, 0x3042000000000000⟩
+    = .ok (totalLe (decode (bitsOf ⟨10, 0x3040000000000000⟩)) (decode (bitsOf ⟨1, 0x3042000000000000⟩))) :=
+  total_order_spec _ _
+example : totalLe (decode (bitsOf ⟨10, 0x3040000000000000⟩)) (decode (bitsOf ⟨1, 0x3042000000000000⟩)) = true := by
+  decide +kernel
+example : bid128_total_order_mag ⟨3, 0xb040000000000000⟩ ⟨0, 0xf800000000000000⟩
+    = .ok (totalLeMag (decode (bitsOf ⟨3, 0xb040000000000000⟩)) (decode (bitsOf ⟨0, 0xf800000000000000⟩))) :=
+  total_order_mag_spec _ _
 
 end Dec.C18GenTotalOrder
